@@ -15,6 +15,7 @@ substance is in `grouped_nodes_are_per_group`, the history statements of the sta
 default/delete, `eval_spec` and the flatten theorems.
 -/
 import Kap.Proofs.C10Main
+import Kap.Gen.C10
 namespace Kap.Props.C10
 open Kap.C10
 
@@ -234,5 +235,30 @@ theorem eval_shadowed_result_is_lost :
       (specEvalFT c fields []).map (fun r => aget r.1 "v") = some (some (.int 2)) :=
   ⟨{ exprs := [.bin .add (.ref "v") (.lit (.int 1)), .bin .mul (.ref "v") (.lit (.int 2))], as := ["v", "y"], keep := true },
    [("v", .int 1)], by decide⟩
+
+/-! ### Aliasing: the ShallowCopy discipline, over facts regenerated from the Go source on every run -/
+
+set_option maxRecDepth 100000 in
+/-- **No node writes to what it received**: over the write / call facts that extract/c10alias regenerates from where.go,
+eval.go, default.go, delete.go, shift.go, sample.go, derivative.go, change_detect.go, state_tracking.go, flatten.go,
+combine.go, group_by.go (Kap/Gen/C10.lean), every write goes to a fresh or own object or to a ShallowCopy (message
+setters only), every written parameter receives such an object at every call site (transitively), and no unrecognised
+shape was met. A change of the source that breaks the discipline (e.g. re-using `dims.TagNames[0:0]` in
+DeleteNode.deleteDimensions, dropping a `.Copy()`) makes this theorem fail to check. -/
+theorem no_write_to_input : Alias.noWriteToInput Kap.Gen.C10.facts = true := by decide
+
+/-- what that rules out, spelled out -/
+theorem no_write_to_input_direct :
+    (∀ fn k, Alias.Fact.write fn k .input ∉ Kap.Gen.C10.facts) ∧ (∀ fn k, Alias.Fact.write fn k .unknown ∉ Kap.Gen.C10.facts) ∧
+    (∀ fn s, Alias.Fact.unknown fn s ∉ Kap.Gen.C10.facts) :=
+  Alias.noWriteToInput_direct _ no_write_to_input
+
+/-- the checker is not vacuous: the shape `newTagNames := dims.TagNames[0:0]; append(newTagNames, dim)` in a helper called
+with `p.Dimensions()` is rejected, and so is a map write behind a dropped Copy() reached through two calls. -/
+example :
+    Alias.noWriteToInput [.write 45 .content (.param 0), .call 40 45 0 .input] = false ∧
+    Alias.noWriteToInput [.write 16 .content (.param 1), .call 21 16 1 (.param 0), .call 19 21 0 .msgcopy] = false ∧
+    Alias.noWriteToInput [.write 16 .msgset (.param 1), .call 21 16 1 (.param 0), .call 19 21 0 .msgcopy] = true := by
+  decide
 
 end Kap.Props.C10
